@@ -27,7 +27,7 @@ LEVEL_NOTE = ("Tolerance 1e-6 relative to the largest contributing node (float32
               "monitor is not bit-for-bit). Cell-edge ties (X or Y = k + 1/2) admit either neighbouring cell as 'own cell'.")
 RULE = ("case = one world x 3 subgrids x 2000 positions (kinds: random nodes, per-level linear, linear in x,y,z over a flat bottom). Non-trivial: land faces contribute, positions "
         "on edges/rim and depths outside the level range are present; distinct by world parameters.")
-MANDATORY = ["e2e_displacement_of_a_particle_stored_behind_one_that_died", "vertical_grid_from_Vinfo_Vstretching_2", "vertical_grid_from_Vinfo_file_without_Vtransform", "time_reversed_clock", "subgrid_with_negative_limits", "positions_compared", "land_face_contributes", "depth_above_top_level", "depth_below_bottom_level", "depth_on_level", "edge_tie_positions", "rim_positions",
+MANDATORY = ["neighbours_in_the_arrays_one_row_and_1000_columns_apart", "e2e_displacement_of_a_particle_stored_behind_one_that_died", "vertical_grid_from_Vinfo_Vstretching_2", "vertical_grid_from_Vinfo_file_without_Vtransform", "time_reversed_clock", "subgrid_with_negative_limits", "positions_compared", "land_face_contributes", "depth_above_top_level", "depth_below_bottom_level", "depth_on_level", "edge_tie_positions", "rim_positions",
              "packed_storage", "packed_with_different_scale_factors", "subgrid_pairs_compared", "scalar_values_compared", "linear_levels_exact", "linear3d_exact", "convexity_checked", "vtransform2", "e2e_displacements_checked", "e2e_scalar_values_checked", "consecutive_update_values_compared", "second_file_with_other_packing", "later_frame_nonzero_on_land_faces_first_frame_zero", "grid_file_with_mask_u_and_mask_v"]
 ASSUMPTIONS = ["add_offset of packed u/v is zero (the code documents that it ignores it)", "positions inside the valid region of every subgrid used"]
 TIMEOUT = {"quick": 900, "thorough": 3400}
@@ -201,6 +201,10 @@ def run_case(case: dict[str, Any], wd: Path) -> dict[str, Any]:
     kind = case["kind"]
     imax, jmax = int(rng.integers(8, 41)), int(rng.integers(8, 33))
     N = int(rng.integers(2, 31))
+    wide = bool(kind != "linear3d" and case["idx"] % 12 == 7)
+    if wide:
+        # a grid more than 1000 cells wide, with neighbours in the particle arrays that sit one row and exactly 1000 columns apart (below)
+        imax, jmax, N = int(rng.integers(1030, 1101)), int(rng.integers(8, 11)), min(N, 6)
     Vt = int(rng.choice([1, 2]))
     if case["idx"] % 5 == 2:
         Vt = 2  # these cases take the vertical set-up from Vinfo, the file saying nothing about the transform
@@ -259,7 +263,9 @@ def run_case(case: dict[str, Any], wd: Path) -> dict[str, Any]:
 
     # --- subgrids
     subs: list[Any] = [None]
-    for _ in range(2):
+    if wide:
+        subs.append([3, imax - 2, 1, jmax - 2])  # still more than 1000 cells wide
+    for _ in range(0 if wide else 2):
         i0 = int(rng.integers(1, max(2, imax // 3)))
         i1 = int(rng.integers(max(i0 + 5, 2 * imax // 3), imax))
         j0 = int(rng.integers(1, max(2, jmax // 3)))
@@ -293,6 +299,12 @@ def run_case(case: dict[str, Any], wd: Path) -> dict[str, Any]:
     Y[6 * q + 60:6 * q + 80] = yhi - 1e-7
     X[6 * q + 80:6 * q + 90] = ii[:10]
     Y[6 * q + 80:6 * q + 90] = jj[:10]  # corners of u/v cells = rho points
+    npairs = 0
+    if wide:
+        for k_ in range(0, n - 1, 2):
+            if X[k_] - 1000.0 >= xlo and Y[k_] + 1.0 <= yhi:
+                X[k_ + 1], Y[k_ + 1] = X[k_] - 1000.0, Y[k_] + 1.0
+                npairs += 1
     Ic, Jc = np.round(X).astype(int), np.round(Y).astype(int)
     hcol = H[Jc, Ic]
     Z = rng.uniform(0, 1, size=n) * hcol
@@ -456,6 +468,7 @@ def run_case(case: dict[str, Any], wd: Path) -> dict[str, Any]:
     sit["depth_on_level"] = len(on)
     sit["edge_tie_positions"] = int(np.sum(tieX | tieY))
     sit["rim_positions"] = 80
+    sit["neighbours_in_the_arrays_one_row_and_1000_columns_apart"] = npairs
     sit["packed_storage"] = int(packed)
     sit["packed_with_different_scale_factors"] = int(bool(packed) and spec["pack"]["u"] != spec["pack"]["v"])
     sit["vtransform2"] = int(Vt == 2)
